@@ -1908,11 +1908,13 @@ def slice_programs(slice_name, tier, master_seed, base_id):
     """the programs of one slice: a systematic coverage skeleton followed by seeded random programs"""
     progs = []
     if slice_name == 'grid':
-        shapes = [(13, 12), (3, 24), (24, 2)] if tier == 'quick' else [(25, 25), (13, 13), (2, 30), (30, 2), (12, 24), (24, 12)]
+        # (branches, actions per step, steps): two-digit indices in every dimension
+        shapes = ([(13, 12, 2), (3, 24, 2), (24, 2, 2), (3, 1, 12), (2, 2, 10)] if tier == 'quick'
+                  else [(25, 25, 2), (13, 13, 2), (2, 30, 2), (30, 2, 2), (12, 24, 2), (24, 12, 2), (3, 1, 25), (2, 3, 17), (11, 2, 11), (1, 1, 33)])
         i = 0
-        for (b, a) in shapes:
+        for (b, a, st) in shapes:
             for fam in FAMILIES:
-                progs.append(gen_grid(base_id + i, fam, b, a, subseed(master_seed, 'grid', b, a, fam)))
+                progs.append(gen_grid(base_id + i, fam, b, a, subseed(master_seed, 'grid', b, a, fam) if st == 2 else subseed(master_seed, 'grid', b, a, st, fam), steps=st))
                 i += 1
         return progs
     if slice_name == 'optsf':
@@ -2100,6 +2102,16 @@ def slice_programs(slice_name, tier, master_seed, base_id):
                     j = text.find('~')
                     return j >= 0 and ('{ w::cap(' in text[j:] or '{ w::snap' in text[j:])
                 add(p, fam, 'sk-single-%s' % (dp,), require=req1)
+    if slice_name == 'steps':
+        # many steps (nine and more: two-digit step indices), alone and next to short branches
+        for fam in fams:
+            for dp in [(9,), (10, 2), (2, 11)]:
+                p = dict(prof)
+                p['depth_profile'] = (lambda d: (lambda rng, nb: list(d)))(dp)
+                p['acts'] = (1, 2)
+                p['nest'] = 0.0
+                p['wrappers'] = 0.1
+                add(p, fam, 'sk-deep-%s' % (dp,))
     if slice_name == 'steps':
         # a deferred step that STARTS with a `&mut self` member access on the previous step's value (an iterator carried
         # across the step boundary: non-try macros only)
